@@ -65,3 +65,178 @@ def p_c01(tier):
 
 
 PLANS["C01"] = p_c01
+
+
+# ---------------------------------------------------------------- C10 codes
+
+ALLC_WU = "OK,ERROR,DATA_OK,DATA_NEXT,NEXT,HOLD,HEXIT_OK,HEXIT_ERR,LIST,-2,9"
+ALLC_RT = "OK,ERROR,DATA_OK,DATA_NEXT,NEXT,HOLD,LIST"
+ALLE = "OK,ERROR,DATA_OK,DATA_NEXT,NEXT,HEXIT_OK,HEXIT_ERR,LIST,-2,9"
+T_CODES = "+W:W;+V:W,vu1rw/w,vi1rw/w;+R:R,vu1rw/r,vu1ro/r;+N:R;+U:U;+T:T,vu1rw@x,D=dd;+M:T||+e:R,vu1ro/r;+f:T,D=ee;+g:R"
+
+
+def c10_shards(tier, mon="C10", prop="C10"):
+    quick = tier == "quick"
+    sh = []
+    inv = 5 if quick else 8
+    for tok in (0, 1):
+        for shared in (0, 1):
+            # command machine, one command kind per shard
+            for nm, alpha, sm in (("W", "+WV", 4), ("R", "+RN", 2), ("U", "+U", 1), ("T", "+TM", 8)):
+                sh.append(mcx("codes-cmd-%s-tok%d-sh%d" % (nm, tok, shared), prop=prop, table=T_CODES, cap=24, shared=shared, name_alpha=alpha, max_name=2,
+                              args_alpha="1,", max_args=3, suffix_mask=sm, lines=1, refuse_read=1, refuse_write=1,
+                              codes_W=ALLC_WU, codes_U=ALLC_WU, codes_R=ALLC_RT, codes_T=ALLC_RT, max_inv=inv, tok=tok, varcb_fail=1, act="hold", mon=mon))
+            # event machine
+            sh.append(mcx("codes-evt-tok%d-sh%d" % (tok, shared), prop=prop, table=T_CODES, cap=24, shared=shared, name_alpha="+U", max_name=2, suffix_mask=1,
+                          lines=1, refuse_read=1, refuse_write=1, codes_U="OK,HOLD", ecodes_R=ALLE, ecodes_T=ALLE, max_inv=inv, tok=tok, varcb_fail=1,
+                          ev="+e:R,+f:T,+g:R", act="trigger,hold", trig_budget=2, mon=mon))
+    return sh
+
+
+def p_c10(tier):
+    return {"shards": c10_shards(tier), "require": ["lines_done", "ev_done", "list_lines", "lines_hold"],
+            "technique": "explicit-state model checking: every return-code sequence (<=%d non-terminal codes) of every handler kind in both machines, all io refusal patterns" % (5 if tier == "quick" else 8),
+            "bounds": "all 9 codes plus -2 and 9 for write/run and event handlers; read/test command handlers: the 7 codes the statement defines; variable callbacks failing at every position; buffers shared and separate; token and pass-through handlers",
+            "assumptions": ["HOLD_EXIT_* and out-of-range codes from command read/test handlers and HOLD from event handlers are outside the statement and not generated"]}
+
+
+PLANS["C10"] = p_c10
+
+# ---------------------------------------------------------------- C11 duplex
+
+T_DUP = "+S:R,vu1rw;Z:U;+H:W||+u:vu1ro;+h:R,vu1ro;+t:T,D=dd;+d"
+EV_DUP = "+u:R,+h:R,+t:T,+d:R"
+
+
+def duplex(tag, ring, shared, budget, prop, mon, extra=None, asan=False):
+    kw = dict(prop=prop, table=T_DUP, cap=16, shared=shared, name_alpha="+SZH", max_name=2, args_alpha="1", max_args=1, suffix_mask=7, lines=1, crlf=1,
+              refuse_read=1, refuse_write=1, codes_R="OK,DATA_OK,DATA_NEXT", codes_U="OK,LIST", codes_W="OK,HOLD", ecodes_R="OK,DATA_OK,DATA_NEXT,HEXIT_OK",
+              ecodes_T="OK,DATA_OK,DATA_NEXT", max_inv=1, tok=1, ev=EV_DUP, act="trigger,hold", trig_budget=budget, h_trigger=1, mon=mon)
+    if extra:
+        kw.update(extra)
+    return mcx(tag, ring=ring, asan=asan, **kw)
+
+
+def c11_shards(tier, prop="C11", mon="C11"):
+    quick = tier == "quick"
+    sh = []
+    for ring in ((1, 2) if quick else (1, 2, 3)):
+        for shared in (0, 1):
+            sh.append(duplex("duplex-r%d-sh%d" % (ring, shared), ring, shared, 3 if quick else 4, prop, mon))
+    return sh
+
+
+def p_c11(tier):
+    return {"shards": c11_shards(tier), "require": ["units_cmd", "units_evt", "both_want_flush", "list_lines", "lines_hold"],
+            "technique": "explicit-state model checking of the two flush engines: all interleavings of cat_service, triggers (also from inside handlers), input arrival, write refusals",
+            "bounds": "ring capacity 1,2%s; trigger budget %d; events auto-READ, handler-READ(DATA_NEXT), TEST+description, fails-at-once; commands: multi-unit READ, command list, held WRITE"
+                      % ("" if tier == "quick" else ",3", 3 if tier == "quick" else 4),
+            "assumptions": ["event commands are distinct from the commands reachable from the input stream"]}
+
+
+PLANS["C11"] = p_c11
+
+# ---------------------------------------------------------------- C12 schedule independence
+
+
+def p_c12(tier):
+    sh = []
+    # premise: a refused-only call changes nothing (checked in every state), on the C01 and C10 families
+    for s in c01_shards(tier):
+        a = list(s["args"]); a[a.index("--mon") + 1] = "C12"; a[a.index("--prop") + 1] = "C12"
+        sh.append({"tag": "stutter-" + s["tag"], "bin": s["bin"], "args": a})
+    for s in c10_shards(tier, mon="C12", prop="C12"):
+        if "-sh0" in s["tag"]:
+            sh.append({"tag": "stutter-" + s["tag"], "bin": s["bin"], "args": s["args"]})
+    # black box: failed reads scribble over *ch; every schedule must still agree with the reference
+    quick = tier == "quick"
+    for tn, t, alpha in (("ambig", T_AMBIG, "+TABZ"), ("impl", T_IMPL, "+DOX")):
+        sh.append(mcx("scribble-%s" % tn, prop="C12", table=t, cap=6, name_alpha=alpha, args_alpha="1A", max_name=3 if quick else 4, max_args=7, D=1, dev=DEV,
+                      lines=2, crlf=1, blank=1, refuse_read=1, refuse_write=1, scribble=1, codes_W="OK,ERROR,NEXT", codes_R="OK,DATA_OK,DATA_NEXT,ERROR",
+                      codes_U="OK,ERROR,LIST", codes_T="OK,DATA_OK,ERROR", max_inv=1, mon="C12"))
+    return {"shards": sh, "require": ["lines_done", "stutters_checked"],
+            "technique": "explicit-state model checking: stutter premise (refused io leaves the whole parser state unchanged) in every reachable state, plus all schedules against the reference with failed reads scribbling over the character cell",
+            "bounds": "input families of C01 and C10; refusal runs of any length are covered by the self-loop of the stutter step",
+            "assumptions": ["event-free runs for full-trace equality; with events the exactly-once delivery under back-pressure is part of C11"]}
+
+
+PLANS["C12"] = p_c12
+
+# ---------------------------------------------------------------- C13 queue
+
+T_Q = "H:W;K:U||+a:vu1ro;+b:R,vu1ro;+c:T,D=cc;+d"
+
+
+def c13_shards(tier, prop="C13", mon="C13"):
+    quick = tier == "quick"
+    sh = []
+    ev4 = "+a:R,+b:R,+c:T,+d:R"
+    # (i) event machine alone, no command traffic: full fixpoint, four event kinds, every capacity
+    for ring in (1, 2, 3, 8):
+        evs = ev4 if ring < 8 else "+a:R,+d:R"
+        sh.append(mcx("queue-alone-r%d" % ring, ring=ring, prop=prop, table=T_Q, cap=12, shared=ring % 2, gen_mode="none", refuse_write=1,
+                      ecodes_R="OK,DATA_OK,DATA_NEXT", ecodes_T="OK", max_inv=1, tok=1, ev=evs, act="trigger,queries", trig_budget=0, mon=mon))
+    # (ii) with command traffic (a held command and an answering one)
+    for ring in (1, 2, 3):
+        for shared in (0, 1):
+            full = (ring == 1) or not quick
+            sh.append(mcx("queue-traffic-r%d-sh%d" % (ring, shared), ring=ring, prop=prop, table=T_Q, cap=12, shared=shared, name_alpha="HK", max_name=2, args_alpha="1", max_args=0,
+                          suffix_mask=5, lines=0 if full else 1, refuse_read=1, refuse_write=1, codes_W="HOLD,OK", codes_U="OK", ecodes_R="OK,DATA_OK,DATA_NEXT", ecodes_T="OK",
+                          max_inv=1, tok=1, ev=("+a:R,+b:R,+d:R" if ring < 3 else "+a:R,+d:R"), act="trigger,hold,queries", trig_budget=0 if full else ring + 2, mon=mon))
+    return sh
+
+
+def p_c13(tier):
+    return {"shards": c13_shards(tier), "require": ["ev_accepted", "ev_full", "ev_done", "ev_silent", "lines_hold"],
+            "technique": "explicit-state model checking to the full fixpoint (no trigger budget, unbounded lines): refinement of an abstract bounded FIFO with hidden pop/finish steps",
+            "bounds": "capacities 1,2,3 with four event kinds, capacity 8 with two kinds; command traffic: one held command, one answering command; write refusals",
+            "assumptions": ["event commands distinct from input-reachable commands"]}
+
+
+PLANS["C13"] = p_c13
+
+# ---------------------------------------------------------------- C14 hold
+
+T_HOLD = "+W:W;+R:R,vu1rw;+U:U;+T:T,vu1rw||+e:R,vu1ro;+x:R"
+
+
+def c14_shards(tier, prop="C14", mon="C14"):
+    quick = tier == "quick"
+    sh = []
+    for nm, alpha, sm in (("W", "+W", 4), ("R", "+R", 2), ("U", "+U", 1), ("T", "+T", 8)):
+        for ring in (1, 2):
+            sh.append(mcx("hold-%s-r%d" % (nm, ring), ring=ring, prop=prop, table=T_HOLD, cap=16, shared=ring - 1, name_alpha=alpha, max_name=2, args_alpha="1", max_args=1,
+                          suffix_mask=sm, lines=2 if quick else 3, crlf=1, refuse_read=1, refuse_write=1, codes_W="HOLD,OK", codes_R="HOLD,DATA_OK", codes_U="HOLD,OK",
+                          codes_T="HOLD,OK", ecodes_R="OK,HEXIT_OK,HEXIT_ERR,DATA_OK", max_inv=1, tok=1, ev="+e:R,+x:R", act="trigger,hold", trig_budget=2 if quick else 3,
+                          h_hold_exit=1, mon=mon))
+    return sh
+
+
+def p_c14(tier):
+    return {"shards": c14_shards(tier), "require": ["lines_hold", "hold_yes", "ev_done"],
+            "technique": "explicit-state model checking: every placement of release requests (main context, from inside an event handler, event handler return codes), spurious and repeated requests, events and refusals",
+            "bounds": "four handler kinds entering hold; %d lines queued; trigger budget %d; two queue capacities" % ((2, 2) if tier == "quick" else (3, 3)),
+            "assumptions": ["between an accepted release request and the first byte of the result code cat_is_hold / cat_hold_exit may answer either way"]}
+
+
+PLANS["C14"] = p_c14
+
+# ---------------------------------------------------------------- C15 quiescence
+
+
+def p_c15(tier):
+    sh = []
+    for s in c11_shards("quick", prop="C15", mon="C15") + c13_shards("quick", prop="C15", mon="C15") + c14_shards("quick", prop="C15", mon="C15"):
+        a = list(s["args"]) + ["--liveness", "1"]
+        sh.append({"tag": "live-" + s["tag"], "bin": s["bin"], "args": a})
+    for s in c01_shards("quick"):
+        if "cap6-sh0" in s["tag"] or "free" in s["tag"]:
+            a = list(s["args"]); a[a.index("--mon") + 1] = "C15"; a[a.index("--prop") + 1] = "C15"
+            sh.append({"tag": "live-" + s["tag"], "bin": s["bin"], "args": a + ["--liveness", "1"]})
+    return {"shards": sh, "require": ["ok_repeat_checked", "ev_silent", "ev_done", "lines_done"],
+            "technique": "explicit-state model checking: OK-is-stable checked on every OK state; liveness by following the quiet eager continuation from every reachable state (cycle detection + distance bound)",
+            "bounds": "state spaces of the duplex, queue (fixpoint), hold and lines scenarios",
+            "assumptions": ["an unreleased hold is exempt from liveness (BUSY by design until cat_hold_exit)"]}
+
+
+PLANS["C15"] = p_c15
